@@ -5,9 +5,9 @@
    Impl  (Impl/CAssemble.v): cencoding.pyx _assemble_objects + the call shapes of core.read_col
          (v1: carried row index) and core.read_data_page_v2 (slice, prev_i = 0). *)
 From Coq Require Import NArith List Bool.
-From Pq Require Import Format.Nested Impl.CAssemble Proofs.NestedProofs Proofs.CAssembleProofs
+From Pq Require Import Format.Nested Impl.CAssemble Impl.CAssembleFixed Proofs.NestedProofs Proofs.CAssembleProofs
   Proofs.CAssemblePagesProofs Proofs.NestedMapProofs Proofs.NestedInvProofs
-  Proofs.CAssembleTightProofs.
+  Proofs.CAssembleTightProofs Proofs.CAssembleFixedProofs.
 Import ListNotations.
 Open Scope N_scope.
 
@@ -62,6 +62,20 @@ Theorem C15_pages_exact :
     (run_v1 sh (length rows) pages = AOk rows <-> good_split sh pages = true).
 Proof. exact pages_v1_iff. Qed.
 Print Assumptions C15_pages_exact.
+
+(* the FULL statement of the property's quantifier - every cut of an accepted stream into aligned
+   pages, no guard, empty pages allowed - holds for the model of the PROPOSED REPAIR of
+   _assemble_objects (Impl/CAssembleFixed.v: `if part:` instead of `if vali > 0:`, and a page
+   without a new row returns i - 1).  The repair cannot be compiled here (.pyx), so the two
+   defects stay open findings; the equivalent edit of the generated C was tried against this
+   model and the property oracle (notes/C15.md). *)
+Theorem C15_pages_full_repaired :
+  forall (V : Type) (sh : shape) (es : list entry) (vs : list V) (rows : list (row V)) (pages : list (page V)),
+    assemble_spec sh es vs = Some rows ->
+    pages_stream pages = (es, vs) -> pages_aligned sh pages = true ->
+    run_v1_fx sh (length rows) pages = AOk rows.
+Proof. exact pages_v1_fixed. Qed.
+Print Assumptions C15_pages_full_repaired.
 
 (* the same for the rows a writer shredded (C15_assemble_shred + C15_pages_partial) *)
 Theorem C15_pages_rows_partial :
